@@ -403,7 +403,7 @@ func (s *Specs) contractFor(pkgPath, fn string) *Contract {
 }
 
 var clauseKinds = map[string]bool{"requires": true, "ensures": true, "assigns": true, "shape": true, "loop": true,
-	"assume": true, "option": true, "props": true, "lemma": true, "invariant": true, "trusted": true, "errdrop": true}
+	"assume": true, "option": true, "props": true, "lemma": true, "invariant": true, "trusted": true, "errdrop": true, "maprange": true}
 
 var tagRe = regexp.MustCompile(`^\[([A-Za-z0-9_,\- ]+)\]\s*`)
 var labelRe = regexp.MustCompile(`^([a-zA-Z_][a-zA-Z0-9_\-/]*):\s+`)
